@@ -178,6 +178,19 @@ static void run_op(char **t, int n) {
     }
   }
   else if (!strcmp(o, "cab_close") && n >= 2) { if (cabd && cabs[vi(t[1])] && !absorbed[vi(t[1])]) { cabd->close(cabd, cabs[vi(t[1])]); cabs[vi(t[1])] = NULL; printf("op %d cab_close err=%d\n", opno, cabd->last_error(cabd)); } }
+  else if (!strcmp(o, "cab_close_any") && n >= 2) {     /* close a whole set through ANY of its members (the API allows it) */
+    struct mscabd_cabinet *c = cabd ? cabs[vi(t[1])] : NULL;
+    if (c) {
+      struct mscabd_cabinet *w; int i;
+      for (i = 0; i < NV; i++) { if (!cabs[i] || cabs[i] == c) continue;
+        for (w = c; w; w = w->prevcab) if (w == cabs[i]) break;
+        if (!w) for (w = c; w; w = w->nextcab) if (w == cabs[i]) break;
+        if (w) { cabs[i] = NULL; absorbed[i] = 0; } }
+      cabd->close(cabd, c); cabs[vi(t[1])] = NULL; absorbed[vi(t[1])] = 0;
+      printf("op %d cab_close_any err=%d live_allocs=%ld open_handles=%ld\n", opno, cabd->last_error(cabd), sm_live_allocs(), sm_open_handles());
+    }
+  }
+  else if (!strcmp(o, "ledger_now")) printf("op %d ledger_now live_allocs=%ld open_handles=%ld\n", opno, sm_live_allocs(), sm_open_handles());
   else if (!strcmp(o, "cab_destroy")) { if (cabd) mspack_destroy_cab_decompressor(cabd); cabd = NULL; memset(cabs, 0, sizeof cabs); memset(absorbed, 0, sizeof absorbed); printf("op %d cab_destroy\n", opno); }
 
   else if (!strcmp(o, "chm_new")) { chmd = mspack_create_chm_decompressor(sm_system()); printf("op %d chm_new ok=%d\n", opno, chmd != NULL); }
